@@ -4,7 +4,8 @@ C12 — the property's oracle as a monitor over the observable trace. It knows n
 `sync.Once`, pending lists or program positions: it sees, per scheduler step, which goroutine was
 released, where that goroutine is afterwards (`Vis`) and what it reported (`Out`), and at the end the
 probe requests. "Serving began" is the first time a goroutine is seen parked at `freeze.flags` (the
-point right after the two flags are stored).
+point right after the two flags are stored) — or, at the latest, when `ServeHTTP` has returned for a request
+(also one whose context was already done on arrival: it is a request all the same).
 
 * a registration / constraint / naming attempt is accepted before serving began and panics afterwards;
 * every request answers exactly as the set of accepted registrations and accepted constraints says —
@@ -65,7 +66,10 @@ def Mon.next (m : Mon) (k : Kind) (e : Ev) : Option Mon :=
      | .ok => if m.names.contains r && m.servingBegun then some m' else none
      | .notFrozen => if m.servingBegun then none else some m'
      | .notFound => if m.names.contains r then none else some m')
-  | .request t v, .hit h => if m.servingBegun && h == expected m t v then some m' else none
+  | .request t v false, .hit h => if m.servingBegun && h == expected m t v then some m' else none
+  -- a request whose context was already done has been through `ServeHTTP`: it is a request, so serving has begun
+  -- ("registered before the first request"), whatever it was answered
+  | .request _ _ true, .gone => some { m' with servingBegun := true }
   -- a step that reports nothing: the goroutine moved to its next yield point, is blocked, or had finished
   | _, .none => some m'
   | _, _ => none
